@@ -323,4 +323,21 @@ pub fn run(r: &mut Runner) {
             rec.record(l, (1u64 << 41) + (i * nb + j) as u64, v);
         }
     });
+    {
+        let org = crate::organic::states(if quick { 1 } else { 2 });
+        let no = org.len();
+        r.notes.push(format!("organic operands: {} chain states (depth {} from the C01 seeds)", no, if quick { 1 } else { 2 }));
+        r.par("organic operands (chain results): sqrt, cbrt, powi", no.div_ceil(128), no as u64, |c, l| {
+            for i in (c * 128)..((c + 1) * 128).min(no) {
+                let v = judge_sqrt(org[i], Some(l));
+                rec.record(l, (1u64 << 60) + (i * 8) as u64, v);
+                let v = judge_cbrt(org[i], Some(l));
+                rec.record(l, (1u64 << 60) + (i * 8 + 1) as u64, v);
+                for (k, n) in [2i32, 3, -2, 7, -13].iter().enumerate() {
+                    let v = judge_powi(org[i], *n, Some(l));
+                    rec.record(l, (1u64 << 60) + (i * 8 + 2 + k) as u64, v);
+                }
+            }
+        });
+    }
 }
